@@ -492,7 +492,37 @@ func (l *Linter) resolveFileInclusion(
 	} else {
 		statements = l.loadSnippetVCL(module.Name, module.Data)
 	}
-	return l.resolveIncludeStatements(statements, ctx, isRoot)
+	statements = l.resolveIncludeStatements(statements, ctx, isRoot)
+	if !isRoot {
+		// The include statements in nested blocks would be resolved when the block is linted,
+		// when this module is not marked any more: resolve them now to detect recursive inclusion
+		l.resolveNestedIncludeStatements(statements, ctx)
+	}
+	return statements
+}
+
+// Resolve include statements in nested blocks (if / else / switch / bare block) in place
+func (l *Linter) resolveNestedIncludeStatements(statements []ast.Statement, ctx *context.Context) {
+	for _, stmt := range statements {
+		switch t := stmt.(type) {
+		case *ast.BlockStatement:
+			t.Statements = l.resolveIncludeStatements(t.Statements, ctx, false)
+			l.resolveNestedIncludeStatements(t.Statements, ctx)
+		case *ast.IfStatement:
+			l.resolveNestedIncludeStatements([]ast.Statement{t.Consequence}, ctx)
+			for _, a := range t.Another {
+				l.resolveNestedIncludeStatements([]ast.Statement{a}, ctx)
+			}
+			if t.Alternative != nil {
+				l.resolveNestedIncludeStatements([]ast.Statement{t.Alternative.Consequence}, ctx)
+			}
+		case *ast.SwitchStatement:
+			for _, c := range t.Cases {
+				c.Statements = l.resolveIncludeStatements(c.Statements, ctx, false)
+				l.resolveNestedIncludeStatements(c.Statements, ctx)
+			}
+		}
+	}
 }
 
 //nolint:gocognit,funlen
